@@ -4,6 +4,8 @@ import (
 	"encoding/json"
 	"sort"
 	"strings"
+
+	"verif/spec"
 )
 
 func cloneCase(c *Case) *Case {
@@ -85,10 +87,66 @@ func (e *Engine) Minimise(c *Case) *Case {
 			})
 		}
 	}
-	// shrink the selected root set while the violation persists (identical-* expectations only)
-	if strings.HasPrefix(best.Expect.Kind, "identical") && best.Ref != nil {
-		// only when types are carried as a CLI parameter or YAML list we can not cheaply edit the
-		// rendered text; left as is. The program itself is shrunk by dropping unreachable messages.
+	// shrink the program: the rendered configuration is kept as it is (keys that name deleted
+	// messages or fields are ignored by the plugin), whole messages are dropped first, then fields
+	if best.Ref == nil || best.Ref.Program == nil {
+		budget := 120
+		refs := func(p *spec.Program, name string) bool {
+			for _, m := range p.Messages {
+				if m.Name == name {
+					continue
+				}
+				for _, f := range m.Fields {
+					if f.Ref == name {
+						return true
+					}
+				}
+			}
+			return false
+		}
+		for i := len(best.Program.Messages) - 1; i >= 0 && budget > 0; i-- {
+			name := best.Program.Messages[i].Name
+			if refs(best.Program, name) {
+				continue
+			}
+			budget--
+			try(func(n *Case) {
+				n.Program.Messages = append(append([]spec.Message{}, n.Program.Messages[:i]...), n.Program.Messages[i+1:]...)
+			})
+			if i > len(best.Program.Messages) {
+				i = len(best.Program.Messages)
+			}
+		}
+		for mi := len(best.Program.Messages) - 1; mi >= 0 && budget > 0; mi-- {
+			for fi := len(best.Program.Messages[mi].Fields) - 1; fi >= 0 && budget > 0; fi-- {
+				if len(best.Program.Messages[mi].Fields) <= 1 {
+					break
+				}
+				budget--
+				mi, fi := mi, fi
+				try(func(n *Case) {
+					fs := n.Program.Messages[mi].Fields
+					gone := fs[fi]
+					n.Program.Messages[mi].Fields = append(append([]spec.Field{}, fs[:fi]...), fs[fi+1:]...)
+					// a oneof declaration must keep at least one member
+					if gone.Oneof != "" {
+						left := false
+						for _, f := range n.Program.Messages[mi].Fields {
+							left = left || f.Oneof == gone.Oneof
+						}
+						if !left {
+							var os []string
+							for _, o := range n.Program.Messages[mi].Oneofs {
+								if o != gone.Oneof {
+									os = append(os, o)
+								}
+							}
+							n.Program.Messages[mi].Oneofs = os
+						}
+					}
+				})
+			}
+		}
 	}
 	final, _ := e.Evaluate(best)
 	best.Failures = final
